@@ -324,7 +324,8 @@ func ctxioFrameReadRules(r *Run, p *Prog, T *Terms, cg *CallGraph, rule string) 
 		// every consuming call on a bufio.Reader made by the helper (directly or in repo callees)
 		var consumers []CallSite
 		if op.Closure != nil {
-			for g := range cg.Reach([]*ssa.Function{op.Closure}, false) {
+			// the operation itself (a fast path doing I/O outside the helper), the helper, and their repo callees
+			for g := range cg.Reach([]*ssa.Function{op.Closure, op.Fn}, false) {
 				for _, cs := range callsIn(g, false) {
 					sc := cs.Common.StaticCallee()
 					if sc != nil && sc.Signature.Recv() != nil && isNamed(sc.Signature.Recv().Type(), "bufio", "Reader") && bufioConsumers[sc.Name()] {
